@@ -28,14 +28,18 @@ from irispie.simultaneous._variants import Variant
 from .common import Ctx, Rng, rat_of_float, VERIF
 
 DRIVERS = ["C05"]
+EXTRA_PROPS = ["BridgeC05"]   # refinement bridge from the executable QMat linear algorithm to the matrix-level theorems (audited with this check)
 LEVEL = "proof"
 MANIFEST = {
     "category": "proof",
     "text": ("Lean 4 theorems (partial) about an executable rational model of the steady-state machinery: the steady path is "
              "constant/arithmetic/geometric as declared (and the code's exp(log l + s log c) equals l*c^s over the reals); the residual "
              "of every equation of degree <= 1 in the moving quantities is affine in the date, so zero at two dates means zero at all "
-             "dates (all linear models, log-linear balanced growth); any solution of the stacked two-date linear system satisfies "
-             "A xi_t + B xi_{t-1} + C = 0 at every t; block recursion: for every solver, if each block's exit test holds and the blocks "
+             "dates, and within eps at dates t0<t1 means within eps*(1+2|t-t0|/(t1-t0)) at every date (all linear models, log-linear "
+             "balanced growth); whatever the executable linear algorithm returns makes the model's own residual function zero at every "
+             "rational date (refinement bridge QMat -> Matrix from the checked solve to the stacked two-date theorem, also for the flat "
+             "algorithm and the measurement block); block recursion: for every iteration wrapped by the acceptance step (exit test + an "
+             "executable certificate, proved sound -- no assumed certificate), if the loop completes and the blocks "
              "have the ordering property, every equation of every block holds on the final stored variant (induction over the block "
              "list, with the proved frame condition that write-back touches only the block's unknowns and the proved consistency of "
              "the evaluator's array with the stored path); plan-fixed/exogenized quantities are never written, endogenized parameters "
@@ -367,6 +371,53 @@ def mod_solow(G: Builder, rng: Rng):
     G.tags.append("solow")
 
 
+def mod_trends(G: Builder, rng: Rng):
+    """growth mode: two (or three) unit-root trends with *different* drifts and a simultaneous block of 2-3 non-log
+    variables that inherit different steady changes from them (linear equations, usable in linear and nonlinear solves)"""
+    t1, t2 = G.fresh("tr"), G.fresh("tr")
+    G.tvars += [t1, t2]
+    g1 = G.param("d", [1.0, 0.5, -0.5, 0.25], rng)
+    g2 = G.param("d", [3.0, 2.0, -1.0, 0.75, 1.5], rng)
+    G.teqs.append((T(t1), add(T(t1, -1), T(g1))))
+    G.teqs.append((T(t2), add(T(t2, -1), T(g2))))
+    G.init[t1] = (rng.choice([5.0, 1.0, 0.0]), rng.choice([None, 0.5]))
+    G.init[t2] = (rng.choice([7.0, -2.0, 0.0]), rng.choice([None, 1.0]))
+    u, v = G.fresh("u"), G.fresh("u")
+    G.tvars += [u, v]
+    c1, c2 = rng.choice([0.5, 0.25, -0.5]), rng.choice([0.25, -0.25, 0.125])       # |c1*c2| < 1: the block is non-singular
+    G.teqs.append((T(u), add(mul(N(rng.choice([2.0, 1.0, -1.0])), T(t1)), mul(N(c1), T(v, rng.choice([0, -1]))))))
+    G.teqs.append((T(v), sub(T(t2), mul(N(c2), T(u, rng.choice([0, -1, 1]))))))
+    members = [u, v]
+    if rng.chance(0.5):
+        w = G.fresh("u"); G.tvars.append(w); members.append(w)
+        G.teqs.append((T(w), add(mul(N(0.5), T(u, -1)), mul(N(0.25), T(v)), mul(N(0.25), T(w, -1)))))
+        # close the loop: v also reads w
+        l, r = G.teqs[-2]
+        G.teqs[-2] = (l, add(r, mul(N(0.125), T(w, -1))))
+    for n_ in members:
+        G.init[n_] = (rng.choice([1.0, 0.0, 2.0]), rng.choice([None, 0.0, 0.5]))
+    G.fixlevels += [t1]
+    G.fixchanges += [(t1, g1), (t2, g2)]
+    G.tags.append("trends")
+    return [t1, t2] + members
+
+
+def mod_logtrends(G: Builder, rng: Rng):
+    """growth mode, nonlinear: two log-variables growing at different gross rates and a simultaneous pair of log-variables
+    whose growth rates (sqrt(ga*gb) and sqrt(gb/ga)) differ from each other and from the drivers"""
+    la, lb, m1, m2 = (G.fresh("l") for _ in range(4))
+    G.tvars += [la, lb, m1, m2]; G.logs += [la, lb, m1, m2]
+    ga = G.param("g", [1.03125, 1.0625], rng)
+    gb = G.param("g", [1.015625, 1.125, 0.96875], rng)
+    G.teqs.append((div(T(la), T(la, -1)), T(ga)))
+    G.teqs.append((div(T(lb), T(lb, -1)), T(gb)))
+    G.teqs.append((T(m1), mul(T(la), T(m2, -1))))
+    G.teqs.append((mul(T(m2), T(m1, -1)), T(lb)))
+    for n_ in (la, lb, m1, m2):
+        G.init[n_] = (rng.choice([1.0, 2.0, 1.5]), rng.choice([None, 1.0, 1.03125]))
+    G.tags.append("logtrends")
+
+
 def finish_case(G: Builder, linear, flat, plan, split, solver) -> dict:
     eq_text = lambda lr: f"{to_text(lr[0])} = {to_text(lr[1])}"
     src = ["!transition-variables\n    " + ", ".join(G.tvars)]
@@ -461,6 +512,15 @@ def gen_case(rng: Rng, force=None) -> dict:
         if fam == "solow": mod_solow(G, rng)
         if (fam == "drift" or rng.chance(0.2)) and not flat: extra.append(mod_drift(G, rng))
         if fam == "loglin": mod_loglin(G, rng, flat)
+    # blocks whose members have different steady changes, in models with more than eight quantities, declared in a random order
+    trends = (not flat) and (bool(force and force.get("trends")) or rng.chance(0.3))
+    if trends:
+        for _ in range(rng.randint(1, 2)):
+            extra += mod_trends(G, rng)
+        if not linear and rng.chance(0.5):
+            mod_logtrends(G, rng)
+        if len(G.tvars) < 10:
+            mod_ar(G, rng, rng.randint(2, 3), rich)
     if rng.chance(0.5):
         mod_meas(G, rng, extra)
     # steady autovalues: an auxiliary parameter assigned from the final steady state
@@ -504,7 +564,14 @@ def gen_case(rng: Rng, force=None) -> dict:
             init[k] = v
     eq_text = lambda lr: f"{to_text(lr[0])} = {to_text(lr[1])}"
     src = []
-    src.append("!transition-variables\n    " + ", ".join(G.tvars))
+    # the quantity ids follow the order of declaration: vary it (also the order of the equations), so that the members of a
+    # block are not always neighbours with small ids
+    declared = list(G.tvars)
+    if trends or rng.chance(0.3):
+        rng.shuffle(declared)
+        rng.shuffle(G.teqs)
+        G.tags.append("shuffled")
+    src.append("!transition-variables\n    " + ", ".join(declared))
     if G.mvars: src.append("!measurement-variables\n    " + ", ".join(G.mvars))
     if G.logs: src.append("!log-variables\n    " + ", ".join(G.logs))
     src.append("!parameters\n    " + ", ".join(G.params))
@@ -534,6 +601,7 @@ def case_for_json(case):
 
 _RECORD: list | None = None
 _UNSORTED = 0
+_UNSORTED_DISTINCT = 0        # ... of which the change unknowns have at least two different values
 
 
 def _make_spy(real_name: str):
@@ -556,8 +624,10 @@ def _make_spy(real_name: str):
             dc = sorted((q, float(np.exp(x)) if pos[q] in where else float(x)) for q, x in zip(chg_q, g[nl:]))
             delog = [x for _, x in dl] + [x for _, x in dc]
             if lev_q != sorted(lev_q) or chg_q != sorted(chg_q):
-                global _UNSORTED
+                global _UNSORTED, _UNSORTED_DISTINCT
                 _UNSORTED += 1
+                if len(set(round(x, 9) for _, x in dc)) > 1:
+                    _UNSORTED_DISTINCT += 1
             lev_q, chg_q = sorted(lev_q), sorted(chg_q)
             resid = np.array(ev.eval_func(g), dtype=float).flatten().tolist()
             _RECORD.append({"wrt_qids": list(ev.wrt_qids), "lev_q": lev_q, "chg_q": chg_q, "guess": delog, "resid": resid,
@@ -810,7 +880,7 @@ def compare_steady(ctx: Ctx, case, vid, line, meta, reply, after_loop, after_aut
                 ctx.disagree("steady", cj, "block skipped by the implementation", mb); return
             ctx.count("blocks_skipped")
             continue
-        mm = re.match(r"WL (\S*) WC (\S*) R (.*) X ([TF]) X2 ([TF])$", mb)
+        mm = re.match(r"WL (\S*) WC (\S*) R (.*) X ([TF]) X2 ([TF]) G ([TF])$", mb)
         if not mm:
             ctx.disagree("steady", cj, "block solved by the implementation", mb); return
         wl = ",".join(map(str, rec["lev_q"])); wc = ",".join(map(str, rec["chg_q"]))
@@ -834,6 +904,8 @@ def compare_steady(ctx: Ctx, case, vid, line, meta, reply, after_loop, after_aut
         if allrat and accepted != "T":
             ctx.disagree("steady", cj, f"block accepted by solver {rec.get('solver')} (residuals {ires[:6]})", mb); return
         ctx.count("blocks_accepted_by:" + str(rec.get("solver")))
+        # the executable certificate `goodGuess?` of the model (side conditions of the consistency theorem) on this block
+        ctx.count("model_certificate_goodGuess:" + mm.group(6))
         ctx.count("blocks_replayed")
         ctx.count(f"block_size_{min(ne, 6)}")
     for name, part, (lv, ch) in (("after-loop", (parts[1], parts[2]), after_loop),):
@@ -873,6 +945,9 @@ def linear_lines(case, m):
         if F.shape[0]:
             out.append((f"measchk ; {mat_text(F)} ; {mat_text(Gm)} ; {colvec_text(H)} ; {colvec_text(Xi)} ; {colvec_text(dXi)} ; "
                         f"{colvec_text(Y)} ; {colvec_text(dY)} ; -5 5", ("measchk", vid, None, None)))
+            # the model's own measurement block (Linear.solveMeasurementNonflat) on the implementation's (xi, dxi)
+            out.append((f"meas ; {mat_text(F)} ; {mat_text(Gm)} ; {colvec_text(H)} ; {colvec_text(Xi)} ; {colvec_text(dXi)}",
+                        ("meas", vid, Y, dY)))
     return out
 
 
@@ -883,6 +958,16 @@ def compare_linear(ctx: Ctx, case, line, tag, reply):
     cj = {"case": case_for_json(case), "variant": vid, "line": line[:2000]}
     ctx.streams_compared[kind] = ctx.streams_compared.get(kind, 0) + 1
     ws = reply.split()
+    if kind == "meas":
+        if reply == "singular":
+            ctx.count("meas_singular"); return
+        i = ws.index("dy")
+        my, mdy = ws[1:i], ws[i + 1:]
+        iy = [cell(x) for x in np.array(Xi).flatten()]          # (Xi, dXi) slots carry (Y, dY) for this kind
+        idy = [cell(x) for x in np.array(dXi).flatten()]
+        if len(iy) != len(my) or len(idy) != len(mdy) or not all(close(a, b, 1e-8) for a, b in zip(iy + idy, my + mdy)):
+            ctx.disagree("meas", cj, "y " + " ".join(iy) + " dy " + " ".join(idy), reply)
+        return
     if kind == "lin":
         if reply == "singular":
             ctx.count("lin_singular(level-indeterminate)")
@@ -1387,6 +1472,7 @@ def run(ctx: Ctx):
         force = None
         if i % 7 == 3: force = {"linear": True, "flat": False}
         if i % 7 == 5: force = {"linear": False, "flat": False}
+        if i % 7 in (1, 6): force = {"linear": False, "flat": False, "trends": True}
         case = gen_case(Rng(seed), force)
         case["gen_seed"], case["force"] = seed, force
         status = run_case(ctx, case, pending)
@@ -1418,6 +1504,7 @@ def run(ctx: Ctx):
     flush(ctx, pending)
     ctx.extra["programs"] = ctx.counts.get("solved", 0)
     ctx.counts["evaluators_with_unsorted_set_order"] = _UNSORTED
+    ctx.counts["evaluators_with_unsorted_set_order_and_distinct_changes"] = _UNSORTED_DISTINCT
     if solved < ncases // 2:
         from .common import InternalError
         raise InternalError(f"only {solved} of {ncases} generated models were solved by the implementation: generator out of tune "
